@@ -31,6 +31,12 @@ func (st *Transfer) hashSearch(targets []target, tagTable map[uint16]int, head r
 		return err
 	}
 
+	if fi.Size() == 0 {
+		// There is nothing to search in an empty file (and the rolling
+		// checksum below needs at least one byte): send it as a whole file.
+		return st.sendFile(fileIndex, fl)
+	}
+
 	readSize := max(3*head.BlockLength, 256*1024)
 	ms := mapFile(f, fi.Size(), readSize, head.BlockLength)
 
